@@ -281,12 +281,19 @@ def make(rng, i, allk):
     nd = [16, 24, 36][(i // 3) % 3] if i < 9 else int(rng.choice([16, 24, 36]))
     c = wl.make_case(rng, kind=str(rng.choice(["windsea", "veering", "veering", "mixed", "random"])), nd=nd,
                      npoints=int(rng.integers(1, 4)))
+    if rng.uniform() < 0.3:
+        # a spectrum that was zero-filled onto a wider frequency grid: no energy in the highest bins (the diagnostic
+        # tail above the last bin then carries nothing; only the background stress remains)
+        E_ = np.array(c["E"], dtype=float)
+        E_[:, -int(rng.integers(1, 4)):, :] = 0.0
+        c["E"] = E_
+        c["kind"] = c["kind"] + "+zero-top-bins"
     # non-default generation parameters for a third of the cases (a viscous stress contribution, which ST4 switches
     # off by default, adds a vector along the wind to the stress)
     gp = [None, None, {"viscous_stress_parameter": 0.04}, {"charnock_constant": 0.015, "viscous_stress_parameter": 0.1}][int(rng.integers(0, 4))]
     c.update({"pair": pair, "gen_params": gp, "dis_params": None, "ks": [int(k) for k in rng.integers(1, nd, 3)],
               "phi": float(rng.uniform(1.0, 359.0)),
-              "allk": allk, "inversion": bool(c["kind"] in ("windsea", "mixed", "veering") and i % 2 == 0)})
+              "allk": allk, "inversion": bool(c["kind"].split("+")[0] in ("windsea", "mixed", "veering") and i % 2 == 0)})
     return c
 
 
